@@ -491,7 +491,21 @@ func (wm *warm) hostileVariants(base hist.TxSpec, rng *rand.Rand, perField int) 
 		v := payload[f]
 		if am, ok := isAmountObj(v); ok {
 			_ = am
+			picked := map[int]bool{}
 			for _, t := range pickN(rng, len(amountTraits), perField) {
+				picked[t] = true
+			}
+			// (the values between the signed and the unsigned 64-bit limit go into every amount field: whatever
+			// width a handler reads an amount with, these are the ones that change sign on the way)
+			for t, tr := range amountTraits {
+				if tr.name == "2^63" || tr.name == "2^64-1" {
+					picked[t] = true
+				}
+			}
+			for t := range amountTraits {
+				if !picked[t] {
+					continue
+				}
 				tr := amountTraits[t]
 				add(f, "amount="+tr.name, func(p map[string]interface{}) { p[f].(map[string]interface{})["value"] = tr.val })
 			}
